@@ -17,6 +17,8 @@ const EXT: &[(&str, &str)] = &[
     ("m", "{ bad: std.map(function(x, y) x, [1, 2]), badk: std.mapWithKey(function(k) k, {a: 1}), ok: std.map(function(x) x + 1, [1, 2]), mixed: std.mapWithIndex(function(i, x) if i == 1 then error 'el1' else x, [5, 6]) }"),
     ("f", "function(x, y=std.extVar('lib').v) x + y"),
     ("g", "function(x) if x > 0 then error 'positive' else x"),
+    ("base", "{a: 1, h:: 2, z: [self.a]}"),
+    ("mixin", "{b: 2} + {assert self.b > 0}"),
 ];
 
 const THUNKS: &[&str] = &[
@@ -68,6 +70,23 @@ const SOURCES: &[&str] = &[
     "std.extVar('m').ok",
     "std.extVar('m').mixed[1]",
     "std.extVar('m').mixed[0] + std.length(std.extVar('m').bad)",
+    // a shared object that one request enumerates and another one extends (per-object caches:
+    // field order, visibility, checked assertions)
+    "std.extVar('base')",
+    "[std.objectFields(std.extVar('base')), std.length(std.extVar('base')), std.extVar('base') == {a: 1, z: [1]}]",
+    "std.extVar('base') + std.extVar('mixin')",
+    "std.extVar('base') + ({b: 2} + {})",
+    "std.objectFieldsAll(std.extVar('base') + ({h+: 1, c:: 3} + {local x = 1}) + {c: 4})",
+    "std.extVar('mixin') + std.extVar('base') + {b: -1}",
+    "[std.extVar('mixin'), std.objectFields(std.extVar('mixin') + {})]",
+    "std.extVar('base') { a+: 1 } + ({} + {}) + {z+: [2]}",
+    // names that exist only as computed strings until another request spells them out
+    // (the string interner is shared by all requests of a program state)
+    "{a: super['late_' + 'name']}.a",
+    "{late_name: 1, late_key: 2}.late_name",
+    "[std.extVar('o')['late_' + 'name'], 1]",
+    "[std.objectHas(std.extVar('o'), 'late_' + 'name'), ('late_' + 'key') in std.extVar('o'), std.objectFields(std.objectRemoveKey(std.extVar('o2'), 'late_' + 'key'))]",
+    "{a: ('late_' + 'name') in super, b: '%(late_key)s' % {c: 1}}",
 ];
 
 pub fn alphabet() -> Vec<Req> {
